@@ -32,7 +32,7 @@ func c09MoreSpecs() []*edt.Spec {
 		{
 			Pkg: "primitives/ed25519", Func: "(*BatchVerifier).Verify", SymLoops: true, Opaque: []string{"BatchVerifier.VerifyBatchOnly"}, MinPaths: 25,
 			Abbrev: [][2]string{
-				{"(φL1.1 + 1)", "IDX"}, {"(φL0.0 + 1)", "LJ"}, {"$v.entries[IDX]", "E"},
+				{"φL1.1", "IDX"}, {"φL0.0", "LJ"}, {"$v.entries[IDX]", "E"},
 				{"sel(havoc@L1(M<[]bool>#0), [IDX])", "VALID_I"},
 				{"BatchVerifier.VerifyBatchOnly($v, $rand)", "BATCHONLY"}, {"BatchVerifier.VerifyBatchOnly($rand)", "BATCHONLY"},
 			},
@@ -45,7 +45,7 @@ func c09MoreSpecs() []*edt.Spec {
 					return "init"
 				case strings.HasPrefix(out, "true ; &new("):
 					return "fast"
-				case out == "next-iteration@L1(φL1.0, IDX)":
+				case out == "next-iteration@L1(φL1.0, (IDX + 1))":
 					return "skip"
 				case strings.HasPrefix(out, "next-iteration@L1("):
 					return "verify"
@@ -69,18 +69,18 @@ func c09MoreSpecs() []*edt.Spec {
 			Extra: func(p *edt.Path, out, class string, e *edt.Env, ab func(string) string) string {
 				switch class {
 				case "init":
-					return finalIs(p, ab, "M<[]bool>#0[(φL0.0 + 1)]", "$v.entries[LJ].canBeValid")
+					return finalIs(p, ab, "M<[]bool>#0[φL0.0]", "$v.entries[LJ].canBeValid")
 				case "verify":
 					if !e.Known("entryNotExpanded") || !e.Known("entryCofactorless") || !e.Known("allValidSoFar") {
 						return "the serial fallback verifies an entry without selecting the equation by (expanded key?, cofactorless?) or without folding the result into the overall flag"
 					}
 					want := eq(e.V("entryNotExpanded") == edt.T, e.V("entryCofactorless") == edt.T)
-					if m := finalIs(p, ab, "M<[]bool>#0[(φL1.1 + 1)]", want); m != "" {
+					if m := finalIs(p, ab, "M<[]bool>#0[φL1.1]", want); m != "" {
 						return "per-entry result: " + m
 					}
-					wantOut := "next-iteration@L1(" + want + ", IDX)"
+					wantOut := "next-iteration@L1(" + want + ", (IDX + 1))"
 					if e.V("allValidSoFar") == edt.F {
-						wantOut = "next-iteration@L1(false, IDX)"
+						wantOut = "next-iteration@L1(false, (IDX + 1))"
 					}
 					if out != wantOut {
 						return fmt.Sprintf("overall flag must be the conjunction of the per-entry results: got %s, want %s", out, wantOut)
